@@ -62,3 +62,9 @@ pub assume_specification<T, A: core::alloc::Allocator>[ std::collections::VecDeq
     ensures match r { Some(x) => d@.len() > 0 && *x == d@[d@.len() - 1], None => d@.len() == 0 };
 pub assume_specification<T: Clone>[ <[T] as std::borrow::ToOwned>::to_owned ](s: &[T]) -> (r: Vec<T>)
     ensures r@.len() == s@.len(), forall|i: int| 0 <= i < s@.len() ==> cloned::<T>(s@[i], #[trigger] r@[i]);
+pub assume_specification<T: Clone>[ <[T]>::to_vec ](s: &[T]) -> (r: Vec<T>)
+    ensures r@.len() == s@.len(), forall|i: int| 0 <= i < s@.len() ==> cloned::<T>(s@[i], #[trigger] r@[i]);
+
+/// cloning a byte gives the same byte (u8: Copy)
+pub axiom fn axiom_cloned_u8()
+    ensures forall|a: u8, b: u8| #[trigger] cloned::<u8>(a, b) ==> a == b;
